@@ -25,6 +25,9 @@ def pts_len(tier):
             Ls = sorted({8 * n - k for n in bl for k in range(8) if 8 * n - k >= 0})
         for L in Ls:
             pts.append((Nb, L))
+        for k in (5, 8, 17, 33) + ((64, 65) if tier == 'thorough' else ()):
+            for dn in (-8, -3, 0, 8):
+                pts.append((Nb, k * Nb + dn))
     return pts
 
 
